@@ -7,6 +7,7 @@ import (
 	"fmt"
 	"go/ast"
 	"go/types"
+	"sort"
 	"strings"
 
 	"verif/sa/internal/core"
@@ -66,6 +67,15 @@ func guardParams(c *Ctx) {
 	mapObj, cbObj := sig.Params().At(mi), sig.Params().At(ci)
 	_ = li
 	ld := c.P.Locals(fi)
+	// the callback and its local aliases
+	cbSet := map[types.Object]bool{cbObj: true}
+	for o, defs := range ld.Defs {
+		for _, d := range defs {
+			if d.Kind == core.DefAssign && core.ObjOf(info, d.Expr) == cbObj {
+				cbSet[o] = true
+			}
+		}
+	}
 	stores := 0
 	ast.Inspect(fi.Decl.Body, func(n ast.Node) bool {
 		as, ok := n.(*ast.AssignStmt)
@@ -80,8 +90,16 @@ func guardParams(c *Ctx) {
 		conds := c.conds(fi, as)
 		var inline, assertOK, noErr bool
 		for _, cd := range conds {
-			if x, empty, ok := core.EmptyTest(info, cd); ok && empty && strings.Contains(exprStr(x), ".Ref") {
-				inline = true
+			if x, empty, ok := core.EmptyTest(info, cd); ok && empty {
+				xs := exprStr(x)
+				if o := core.ObjOf(info, x); o != nil {
+					if defs := ld.Defs[o]; len(defs) == 1 && defs[0].Kind == core.DefAssign {
+						xs = exprStr(defs[0].Expr)
+					}
+				}
+				if strings.Contains(xs, ".Ref") {
+					inline = true
+				}
 			}
 			if cd.Kind == core.CondBool {
 				if o := core.ObjOf(info, cd.Expr); o != nil && !cd.Neg {
@@ -133,8 +151,22 @@ func guardParams(c *Ctx) {
 	if stores < 2 {
 		c.S.Undecided("C15", "GUARD-PLACEHOLDER", "floor", "-", fmt.Sprintf("%d stores into the result map (expected 2)", stores))
 	}
-	// error edges: `if cb(...) { continue }; break`
+	// error edges: the callback's answer selects "next parameter" (true) or "stop" (false), in either shape:
+	//   if cb(…) { continue }; break|return        or        if !cb(…) { break|return }; continue
 	edges := 0
+	isStop := func(st ast.Stmt) bool {
+		switch x := st.(type) {
+		case *ast.BranchStmt:
+			return x.Tok.String() == "break"
+		case *ast.ReturnStmt:
+			return true
+		}
+		return false
+	}
+	isContinue := func(st ast.Stmt) bool {
+		b, ok := st.(*ast.BranchStmt)
+		return ok && b.Tok.String() == "continue"
+	}
 	ast.Inspect(fi.Decl.Body, func(n ast.Node) bool {
 		blk, ok := n.(*ast.BlockStmt)
 		if !ok {
@@ -145,26 +177,31 @@ func guardParams(c *Ctx) {
 			if !ok {
 				continue
 			}
-			call, ok := core.Unparen(ifs.Cond).(*ast.CallExpr)
-			if !ok || core.ObjOf(info, call.Fun) != cbObj {
+			cond := core.Unparen(ifs.Cond)
+			neg := false
+			if u, isNot := cond.(*ast.UnaryExpr); isNot && u.Op.String() == "!" {
+				neg = true
+				cond = core.Unparen(u.X)
+			}
+			call, ok := cond.(*ast.CallExpr)
+			if !ok || !cbSet[core.ObjOf(info, call.Fun)] {
 				continue
 			}
 			edges++
-			contOK := len(ifs.Body.List) > 0
-			if contOK {
-				br, isBr := ifs.Body.List[len(ifs.Body.List)-1].(*ast.BranchStmt)
-				contOK = isBr && br.Tok.String() == "continue"
-			}
-			stopOK := false
-			if i+1 < len(blk.List) {
-				switch nx := blk.List[i+1].(type) {
-				case *ast.BranchStmt:
-					stopOK = nx.Tok.String() == "break"
-				case *ast.ReturnStmt:
-					stopOK = true
+			okShape := false
+			if len(ifs.Body.List) > 0 && ifs.Else == nil {
+				last := ifs.Body.List[len(ifs.Body.List)-1]
+				var next ast.Stmt
+				if i+1 < len(blk.List) {
+					next = blk.List[i+1]
+				}
+				if !neg {
+					okShape = isContinue(last) && next != nil && isStop(next)
+				} else {
+					okShape = isStop(last) && (next == nil || isContinue(next))
 				}
 			}
-			c.S.Decide(contOK && stopOK && ifs.Else == nil, "C15", "GUARD-CALLBACK", fi.QName()+"/error-edge", c.P.Pos(ifs.Pos()),
+			c.S.Decide(okShape, "C15", "GUARD-CALLBACK", fi.QName()+"/error-edge", c.P.Pos(ifs.Pos()),
 				"the callback's answer selects continue (true) or stop (false)",
 				"the error edge does not let the callback's result choose between skipping the parameter and stopping")
 		}
@@ -182,7 +219,7 @@ func guardParams(c *Ctx) {
 			return true
 		}
 		for _, cd := range core.SplitCond(ifs.Cond, false) {
-			if x, nonNil, ok := core.NilTest(info, cd); ok && !nonNil && core.ObjOf(info, x) == cbObj {
+			if x, nonNil, ok := core.NilTest(info, cd); ok && !nonNil && cbSet[core.ObjOf(info, x)] {
 				ast.Inspect(ifs.Body, func(m ast.Node) bool {
 					if call, ok := m.(*ast.CallExpr); ok && isBuiltin(info, call, "panic") {
 						panics = true
@@ -245,126 +282,72 @@ func guardParams(c *Ctx) {
 }
 
 func guardPrecedence(c *Ctx) {
-	// for every exported *Spec method with a *spec.Operation parameter: tests on op.Security are nil tests,
-	// tests on op.Consumes / op.Produces are length tests
-	n := 0
-	for _, fi := range specQueryMethods(c) {
-		sig := fi.Obj.Type().(*types.Signature)
-		var opObj *types.Var
-		for i := 0; i < sig.Params().Len(); i++ {
-			if core.IsSpecType(sig.Params().At(i).Type(), "Operation") {
-				opObj = sig.Params().At(i)
-			}
-		}
-		if opObj == nil {
+	// Case analysis by abstract evaluation: each precedence function is evaluated once per combination of
+	// (operation-level list: nil | empty | non-empty) × (document-level list: nil | empty | non-empty); the
+	// document lists it actually iterates must be those the statement prescribes. Robust to helpers, aliases
+	// and branch shapes; nothing is executed.
+	_, opS := c.P.SpecStruct("Operation")
+	opN, _ := c.P.SpecStruct("Operation")
+	swN, _ := c.P.SpecStruct("Swagger")
+	_ = opS
+	if opN == nil || swN == nil {
+		c.S.Undecided("C14", "GUARD-PRECEDENCE", "model", "-", "spec.Operation / spec.Swagger not found")
+		return
+	}
+	type spec struct {
+		fn, field string
+		nilOverrides bool // true: a non-nil (even empty) operation list overrides (security); false: only a non-empty one (media types)
+	}
+	for _, sp := range []spec{{"ConsumesFor", "Consumes", false}, {"ProducesFor", "Produces", false}, {"SecurityRequirementsFor", "Security", true}} {
+		fi := c.root("Spec." + sp.fn)
+		if fi == nil {
+			c.S.Undecided("C14", "GUARD-PRECEDENCE", sp.fn, "-", "exported query Spec."+sp.fn+" not found")
 			continue
 		}
-		info := c.info(fi)
-		ast.Inspect(fi.Decl.Body, func(nd ast.Node) bool {
-			ifs, ok := nd.(*ast.IfStmt)
-			if !ok {
-				return true
-			}
-			for _, cd := range core.SplitCond(ifs.Cond, false) {
-				field := ""
-				ast.Inspect(cd.Expr, func(m ast.Node) bool {
-					if sel, ok := m.(*ast.SelectorExpr); ok && core.ObjOf(info, sel.X) == opObj {
-						field = sel.Sel.Name
-					}
-					return true
-				})
-				switch field {
-				case "Security":
-					n++
-					_, _, isNil := core.NilTest(info, cd)
-					c.S.Decide(isNil, "C14", "GUARD-EMPTINESS", fi.QName()+"/Security", c.P.Pos(ifs.Pos()),
-						"the operation's security overrides the document's when it is non-nil (an explicitly empty list disables security)",
-						"the operation's security is tested with "+exprStr(cd.Expr)+" instead of a nil test: an explicitly empty list would no longer disable security")
-				case "Consumes", "Produces":
-					n++
-					_, _, isLen := core.EmptyTest(info, cd)
-					c.S.Decide(isLen, "C14", "GUARD-EMPTINESS", fi.QName()+"/"+field, c.P.Pos(ifs.Pos()),
-						"the operation's list is used when non-empty, the document's otherwise",
-						"the operation's "+field+" is tested with "+exprStr(cd.Expr)+" instead of a length test: an empty list would hide the document-level default")
-				}
-			}
-			return true
-		})
-		// source selection: ranges over the document list only where the operation's list is empty and vice versa
-		ast.Inspect(fi.Decl.Body, func(nd ast.Node) bool {
-			rs, ok := nd.(*ast.RangeStmt)
-			if !ok {
-				return true
-			}
-			sel, ok := core.Unparen(rs.X).(*ast.SelectorExpr)
-			if !ok || (sel.Sel.Name != "Consumes" && sel.Sel.Name != "Produces") {
-				return true
-			}
-			fromOp := core.ObjOf(info, sel.X) == opObj
-			var opEmpty, opNonEmpty bool
-			for _, cd := range c.conds(fi, rs) {
-				if x, empty, ok := core.EmptyTest(info, cd); ok {
-					if xs, ok := core.Unparen(x).(*ast.SelectorExpr); ok && core.ObjOf(info, xs.X) == opObj && xs.Sel.Name == sel.Sel.Name {
-						if empty {
-							opEmpty = true
-						} else {
-							opNonEmpty = true
+		var bad []string
+		cases := 0
+		for _, opSt := range []string{"nil", "empty", "nonempty"} {
+			for _, docSt := range []string{"nil", "empty", "nonempty"} {
+				in := &interp{c: c, assume: map[string]string{".$op." + sp.field: opSt, "." + sp.field: docSt}}
+				recv := &aval{k: avStruct, fields: map[string]*aval{}}
+				// the receiver's document field
+				if st, ok := fi.Obj.Type().(*types.Signature).Recv().Type().(*types.Pointer).Elem().Underlying().(*types.Struct); ok {
+					for i := 0; i < st.NumFields(); i++ {
+						if core.IsSpecType(st.Field(i).Type(), "Swagger") {
+							recv.fields[st.Field(i).Name()] = &aval{k: avDoc, typ: types.NewPointer(swN)}
 						}
 					}
 				}
-			}
-			n++
-			ok = fromOp && opNonEmpty || !fromOp && opEmpty
-			src := "document"
-			if fromOp {
-				src = "operation"
-			}
-			c.S.Decide(ok, "C14", "GUARD-PRECEDENCE", fi.QName()+"/range "+exprStr(rs.X), c.P.Pos(rs.Pos()),
-				"the "+src+"-level list is read on the branch where the operation's list is "+map[bool]string{true: "non-empty", false: "empty"}[fromOp],
-				"the "+src+"-level "+sel.Sel.Name+" list is read on the wrong branch of the emptiness test")
-			return true
-		})
-		// security: the schemes variable is the document's unless the operation's is non-nil
-		if fi.Obj.Name() == "SecurityRequirementsFor" {
-			ld := c.P.Locals(fi)
-			for o, defs := range ld.Defs {
-				if len(defs) != 2 {
-					continue
-				}
-				var docDef, opDef *core.Def
-				for i := range defs {
-					d := &defs[i]
-					if d.Kind != core.DefAssign {
-						continue
+				op := &aval{k: avDoc, doc: []pstep{{name: "$op", typ: types.NewPointer(opN)}}, typ: types.NewPointer(opN)}
+				in.call(fi, recv, []*aval{op})
+				cases++
+				usesOp, usesDoc := false, false
+				for _, r := range in.ranged {
+					if r == ".$op."+sp.field {
+						usesOp = true
 					}
-					if sel, ok := core.Unparen(d.Expr).(*ast.SelectorExpr); ok && sel.Sel.Name == "Security" {
-						if core.ObjOf(info, sel.X) == opObj {
-							opDef = d
-						} else {
-							docDef = d
-						}
+					if r == "."+sp.field {
+						usesDoc = true
 					}
 				}
-				if docDef == nil || opDef == nil {
-					continue
+				opWins := opSt == "nonempty" || sp.nilOverrides && opSt == "empty"
+				wantOp := opSt == "nonempty"
+				wantDoc := !opWins && docSt == "nonempty"
+				if usesOp != wantOp || usesDoc != wantDoc {
+					bad = append(bad, fmt.Sprintf("operation %s / document %s: reads operation list=%v document list=%v (expected %v / %v)", opSt, docSt, usesOp, usesDoc, wantOp, wantDoc))
 				}
-				n++
-				guarded := false
-				for _, cd := range c.conds(fi, opDef.Node) {
-					if x, nonNil, ok := core.NilTest(info, cd); ok && nonNil {
-						if xs, ok := core.Unparen(x).(*ast.SelectorExpr); ok && core.ObjOf(info, xs.X) == opObj && xs.Sel.Name == "Security" {
-							guarded = true
-						}
-					}
-				}
-				c.S.Decide(guarded && docDef.Pos < opDef.Pos, "C14", "GUARD-PRECEDENCE", fi.QName()+"/"+o.Name(), c.P.Pos(opDef.Pos),
-					"the document's requirements are the default, replaced by the operation's when those are non-nil",
-					"the operation's security requirements do not replace the document's exactly when they are non-nil")
 			}
 		}
-	}
-	if n < 8 {
-		c.S.Undecided("C14", "GUARD-EMPTINESS", "floor", "-", fmt.Sprintf("only %d precedence tests found (confirmed by hand: 9)", n))
+		sort.Strings(bad)
+		if len(bad) > 3 {
+			bad = append(bad[:3], "…")
+		}
+		what := "the operation's list is used when non-empty, the document's otherwise"
+		if sp.nilOverrides {
+			what = "the operation's requirements are used when declared (non-nil, even empty), the document's otherwise"
+		}
+		c.S.Decide(len(bad) == 0, "C14", "GUARD-PRECEDENCE", "Spec."+sp.fn, c.P.Pos(fi.Decl.Pos()),
+			fmt.Sprintf("%s — all %d cases of (nil|empty|non-empty)² evaluated", what, cases), strings.Join(bad, "; "))
 	}
 	// upper-case discipline of lookups into the operations index
 	opsField, _ := getterField(c, "Operations")
